@@ -252,11 +252,8 @@ impl<H: DnsHandle> DnssecDnsHandle<H> {
             .authorities
             .iter()
             .filter_map(|rr| {
-                if message
-                    .authorities
-                    .iter()
-                    .any(|r| r.name == rr.name && r.proof == Proof::Secure)
-                {
+                // Only an NSEC3 record that was itself authenticated may be used in a proof.
+                if rr.proof == Proof::Secure {
                     match &rr.data {
                         RData::DNSSEC(DNSSECRData::NSEC3(nsec3)) => Some((&rr.name, nsec3)),
                         _ => None,
@@ -271,11 +268,8 @@ impl<H: DnsHandle> DnssecDnsHandle<H> {
             .authorities
             .iter()
             .filter_map(|rr| {
-                if message
-                    .authorities
-                    .iter()
-                    .any(|r| r.name == rr.name && r.proof == Proof::Secure)
-                {
+                // Only an NSEC record that was itself authenticated may be used in a proof.
+                if rr.proof == Proof::Secure {
                     match &rr.data {
                         RData::DNSSEC(DNSSECRData::NSEC(nsec)) => Some((&rr.name, nsec)),
                         _ => None,
